@@ -42,6 +42,7 @@ type RevSrv struct {
 	tagged bool
 	mu     sync.Mutex
 	inRev  map[int]bool // handlers currently inside a reverse call, by token
+	notes  map[int]string
 }
 
 // Call makes a reverse call while the forward call is pending and returns token*100+identity.
@@ -73,8 +74,18 @@ func (h *RevSrv) Call(ctx context.Context, tok int) (string, error) {
 	return fmt.Sprintf("tok%d-id%d", tok, id), nil
 }
 
+// CallN is Call as a notification: its outcome is recorded on the server.
+func (h *RevSrv) CallN(ctx context.Context, tok int) error {
+	v, _ := h.Call(ctx, tok)
+	h.mu.Lock()
+	h.notes[tok] = v
+	h.mu.Unlock()
+	return nil
+}
+
 type FwdCli struct {
-	Call func(ctx context.Context, tok int) (string, error)
+	Call  func(ctx context.Context, tok int) (string, error)
+	CallN func(ctx context.Context, tok int) error `notify:"true"`
 }
 
 // S-REV (DESIGN §3 C16).
@@ -91,6 +102,8 @@ func init() {
 				b = 1
 			}
 			add("m2-plain", 2+b, map[string]int{"m": 2})
+			// the forward call is a notification whose handler calls back
+			add("m2-notify", 1+b, map[string]int{"m": 2, "notify": 1})
 			add("m2-tagged", 1+b, map[string]int{"m": 2, "tagged": 1})
 			add("m3-plain", 1+b, map[string]int{"m": 3})
 			for _, loss := range []int{1, 2, 3} { // closer, FIN, RST
@@ -118,7 +131,7 @@ func revBody(s *vsched.Sched, p Param) {
 		}
 	}
 	w := NewWorld(s, sopts...)
-	srv := &RevSrv{s: s, tagged: tagged, inRev: map[int]bool{}}
+	srv := &RevSrv{s: s, tagged: tagged, inRev: map[int]bool{}, notes: map[int]string{}}
 	w.RPC.Register("T", srv)
 	w.Serve()
 	clis := make([]FwdCli, m)
@@ -151,6 +164,15 @@ func revBody(s *vsched.Sched, p Param) {
 		return true
 	}
 	s.Finish = func() {
+		if p.I("notify") == 1 {
+			srv.mu.Lock()
+			for j := 0; j < m; j++ {
+				if got, want := srv.notes[j+1], fmt.Sprintf("tok%d-id%d", j+1, j+1); got != want {
+					s.Violate("C16: the reverse call made by the handler of client %d's notification yielded %q, want %q; alive: %s", j+1, got, want, strings.Join(s.Alive(), " "))
+				}
+			}
+			srv.mu.Unlock()
+		}
 		for j := 0; j < m; j++ {
 			v, ok := obs.Get(fmt.Sprintf("ret-%d", j))
 			if !ok {
@@ -184,6 +206,11 @@ func revBody(s *vsched.Sched, p Param) {
 	for j := 0; j < m; j++ {
 		j := j
 		s.Go(fmt.Sprintf("fwd-%d", j), func() {
+			if p.I("notify") == 1 {
+				err := clis[j].CallN(context.Background(), j+1)
+				obs.Set(fmt.Sprintf("ret-%d", j), "tok%d-id%d/%s", j+1, j+1, errClass(err))
+				return
+			}
 			v, err := clis[j].Call(context.Background(), j+1)
 			obs.Set(fmt.Sprintf("ret-%d", j), "%s/%s", v, errClass(err))
 		})
